@@ -53,6 +53,37 @@ def run_sql(state, text):
         db.close()
 
 
+def mysql_to_standard(rendered):
+    """MySQL reads a backslash inside a string literal as an escape character (the renderer doubles it for that target);
+    the reference engine does not.  Rewrite the literals of MySQL output to the standard spelling: `\\\\` -> `\\`."""
+    out, i, n = [], 0, len(rendered)
+    while i < n:
+        ch = rendered[i]
+        if ch != "'":
+            out.append(ch)
+            i += 1
+            continue
+        j = i + 1
+        lit = ["'"]
+        while j < n:
+            if rendered[j] == '\\' and j + 1 < n:
+                lit.append(rendered[j + 1] if rendered[j + 1] == '\\' else rendered[j:j + 2])
+                j += 2
+            elif rendered[j] == "'" and rendered[j + 1:j + 2] == "'":
+                lit.append("''")
+                j += 2
+            elif rendered[j] == "'":
+                lit.append("'")
+                j += 1
+                break
+            else:
+                lit.append(rendered[j])
+                j += 1
+        out.append(''.join(lit))
+        i = j
+    return ''.join(out)
+
+
 def unnest_left(rendered):
     """`((A op B) op C) op D` -> `A op B op C op D`: SQLAlchemy parenthesises a compound select that is the left
     operand of another one.  Those parentheses state exactly the left-to-right grouping SQLite applies to the flat
@@ -140,6 +171,9 @@ def run_shard(ctx):
                 if a[0] != 'ok':
                     acc.count('original_not_executable')     # generator fault, never a verdict
                     continue
+                if target == 'mysql' and '\\' in rendered:
+                    rendered = mysql_to_standard(rendered)
+                    acc.count('mysql_literals_translated')
                 b = run_sql(st, rendered)
                 chain = any(f.startswith('setop-chain:') for f in g.features)
                 if b[0] != 'ok' and chain and rendered.startswith('('):
